@@ -48,6 +48,7 @@ func RunLoop(rctx RunCtx, prompt string) (err error) {
 		in      = rctx.ctx.IO().In()
 		out     = rctx.ctx.IO().Out()
 		argChan = make(chan []string, 1)
+		errChan = make(chan error, 1)
 		next    = make(chan struct{}, 1)
 	)
 	go func() {
@@ -69,7 +70,8 @@ func RunLoop(rctx RunCtx, prompt string) (err error) {
 						out.Printf(prompt)
 					}
 					if args, eof, err = varutil.ReadArguments(in); err != nil {
-						rctx.ctx.Scope().AppendError(err)
+						// reported by the loop below: it owns the scope, this goroutine may outlive it
+						errChan <- err
 						return
 					}
 					if len(args) != 0 {
@@ -95,6 +97,9 @@ func RunLoop(rctx RunCtx, prompt string) (err error) {
 		next <- struct{}{}
 		select {
 		case <-rctx.ctx.Scope().Done():
+			return
+		case err = <-errChan:
+			rctx.ctx.Scope().AppendError(err)
 			return
 		case args, more := <-argChan:
 			if !more {
